@@ -70,7 +70,7 @@ def x0_array(p):
     spec = p.spec
     if p.x0 is None:
         return np.clip(np.zeros(spec.n), spec.var_lb, spec.var_ub)
-    return np.asarray(p.x0, dtype=float)
+    return np.array(np.broadcast_to(np.asarray(p.x0, dtype=float), (spec.n,)))
 
 
 def y0_array(p):
